@@ -29,6 +29,7 @@ import (
 	"time"
 
 	"github.com/pion/logging"
+	"github.com/pion/rtp"
 	"github.com/pion/srtp/v3"
 	"github.com/pion/webrtc/v4/internal/verif/vkit"
 )
@@ -130,6 +131,7 @@ type c30Seed struct {
 	Type  string `json:"type"`  // "offer" | "answer"
 	Local string `json:"local"` // local set-up of the connection the seed is fed to
 	SDP   string `json:"sdp"`
+	D     bool   `json:"d,omitempty"` // seed of part D (real pair; the text only fixes the line structure)
 }
 
 var c30Sems = []SDPSemantics{SDPSemanticsUnifiedPlan, SDPSemanticsPlanB, SDPSemanticsUnifiedPlanWithFallback}
@@ -223,6 +225,11 @@ func c30Setup(tb testing.TB, pc *PeerConnection, setup string) {
 		data()
 	case "audio":
 		addTrack(MimeTypeOpus, "la")
+	case "video":
+		addTrack(MimeTypeVP8, "lv")
+	case "av":
+		addTrack(MimeTypeOpus, "la")
+		addTrack(MimeTypeVP8, "lv")
 	case "avd":
 		addTrack(MimeTypeOpus, "la")
 		addTrack(MimeTypeVP8, "lv")
@@ -620,6 +627,8 @@ type c30Case struct {
 	MLine *int    `json:"mline,omitempty"`
 	Ufrag *string `json:"ufrag,omitempty"`
 	State string  `json:"state,omitempty"` // "have-remote-offer" | "stable"
+	// pair (part D): the line kinds of the seed, to check that the fresh offer has the seed's structure
+	Kinds []string `json:"kinds,omitempty"`
 	// rtp
 	Shape *int `json:"shape,omitempty"` // nil: all shapes
 	// key parts
@@ -654,6 +663,13 @@ type c30Env struct {
 	skip map[string][]c30Dev
 
 	seedByName map[string]*c30Seed
+	thorough   bool
+}
+
+// prefix generates the cheap-to-enumerate prefix of the case space: candidate cases (part B)
+// followed by the real-pair cases (part D).
+func (e *c30Env) prefix() []c30Case {
+	return append(c30CandCases(), c30PairCases(e.seeds, e.thorough)...)
 }
 
 func c30SkipKey(seed string, sem int, mode string) string {
@@ -692,7 +708,7 @@ func (e *c30Env) skipPair(i int) bool {
 var c30Modes = []string{"queue", "seam"}
 
 func c30BuildEnv(seeds []c30Seed, thorough bool, nCands int) *c30Env {
-	e := &c30Env{seeds: seeds, seedByName: map[string]*c30Seed{}}
+	e := &c30Env{seeds: seeds, seedByName: map[string]*c30Seed{}, thorough: thorough}
 	for si := range seeds {
 		e.seedByName[seeds[si].Name] = &seeds[si]
 	}
@@ -712,6 +728,9 @@ func c30BuildEnv(seeds []c30Seed, thorough bool, nCands int) *c30Env {
 	}
 	for si := range seeds {
 		s := &seeds[si]
+		if s.D {
+			continue
+		}
 		lines := c30Lines(s.SDP)
 		// token replacement operators: quick tier only for the small seeds
 		devs := c30Devs(lines, thorough || len(lines) <= 30)
@@ -729,6 +748,9 @@ func c30BuildEnv(seeds []c30Seed, thorough bool, nCands int) *c30Env {
 		// replacements on ssrc / ssrc-group / rid / simulcast / msid / mid lines
 		for si := range seeds {
 			s := &seeds[si]
+			if s.D {
+				continue
+			}
 			lines := c30Lines(s.SDP)
 			devs := c30Devs(lines, false)
 			if si >= 2 {
@@ -755,7 +777,7 @@ func c30BuildEnv(seeds []c30Seed, thorough bool, nCands int) *c30Env {
 		}
 	}
 	if nCands < 0 {
-		e.cands = c30CandCases()
+		e.cands = e.prefix()
 		nCands = len(e.cands)
 	}
 	e.nCands = nCands
@@ -779,7 +801,7 @@ func (e *c30Env) caseAt(i int) c30Case {
 func (e *c30Env) caseMeta(i int) c30Case {
 	if i < e.nCands {
 		if e.cands == nil {
-			e.cands = c30CandCases()
+			e.cands = e.prefix()
 		}
 
 		return e.cands[i]
@@ -1207,6 +1229,8 @@ func (x *c30Exec) exec(cs c30Case) string {
 		return x.execSDP(cs)
 	case "cand":
 		return x.execCand(cs)
+	case "pair":
+		return x.execPair(cs)
 	}
 
 	return "unknown-part"
@@ -1663,6 +1687,15 @@ func (p *c30Parent) account(cs c30Case, outcome string) {
 		if cs.Mode == "seam" && !strings.HasSuffix(outcome, "tracks=-") {
 			c.Add("sdp_cases_seam_calls_made", 1)
 		}
+	} else if cs.Part == "pair" {
+		c.Distinct("pair:" + c30OpBase(cs.Op) + "|" + cls)
+		c.Add("pair_cases", 1)
+		if strings.HasPrefix(outcome, "connected") {
+			c.Add("pair_cases_connected_and_rtp_written", 1)
+		}
+		if strings.Contains(outcome, "undeclared") {
+			c.Add("pair_cases_rtp_on_undeclared_ssrc", 1)
+		}
 	} else {
 		c.Distinct(cs.Op + "|" + cls)
 		c.Add("candidate_cases", 1)
@@ -1678,6 +1711,11 @@ func c30Describe(cs c30Case) string {
 			c30SemNames[cs.Sem], cs.Mode, d)
 	case "cand":
 		return fmt.Sprintf("AddICECandidate(%q) in %s", vkit.Short(cs.Cand), cs.State)
+	case "pair":
+		d, _ := json.Marshal(cs.Devs)
+
+		return fmt.Sprintf("real loopback pair, sender %s, its offer munged in transit by %s, answerer semantics %s (%s), sender writes RTP",
+			cs.Local, d, c30SemNames[cs.Sem], cs.Mode)
 	}
 
 	return cs.Part
@@ -1700,6 +1738,8 @@ func TestVerifC30(t *testing.T) { //nolint:cyclop
 		"matching local offer) -> Close -> GracefulClose with the queued background work running; seam: same calls, then startRTP / " +
 		"configureRTPReceivers called directly on a simulated SRTP session}. Candidates: full product of valid field values + one malformed field at a " +
 		"time x shape product + init variants, in have-remote-offer and stable. RTP: enumerated header shapes from a connected peer. " +
+		"Pairs (part D): for single-section sender offers every deviation touching ssrc / ssrc-group / msid / rid / mid / extmap (and {delete all a=ssrc} x " +
+		"{operator on a=msid}) applied in transit on a REAL loopback pair, the unmodified sender then writes 20 RTP packets per track. " +
 		"distinct = (operator, outcome class, remote tracks present) actually observed; every case runs in a worker subprocess.")
 	dir, err := os.MkdirTemp("", "c30-")
 	if err != nil {
@@ -1740,6 +1780,7 @@ func TestVerifC30(t *testing.T) { //nolint:cyclop
 	}
 
 	seeds := c30MakeSeeds(t)
+	seeds = append(seeds, c30MakePairSeeds(t, !c.Quick())...)
 	thorough := !c.Quick()
 	p.env = c30BuildEnv(seeds, thorough, -1)
 	raw, _ := json.Marshal(c30SeedFile{Seeds: seeds, NCands: p.env.nCands})
@@ -1756,7 +1797,14 @@ func TestVerifC30(t *testing.T) { //nolint:cyclop
 	c.Set("nasty_values", c30NastyNames)
 	c.Set("families", c30Families)
 	c.Set("cases_planned", p.env.total)
-	c.Set("candidate_cases_planned", p.env.nCands)
+	nPair := 0
+	for _, cs := range p.env.cands {
+		if cs.Part == "pair" {
+			nPair++
+		}
+	}
+	c.Set("candidate_cases_planned", p.env.nCands-nPair)
+	c.Set("pair_cases_planned", nPair)
 	c.Set("schedules_enumerated", false)
 	c.Assume("the deviations are applied to seeds; texts three or more deviations away from every seed are not reached")
 	c.Assume("background goroutines run under the natural schedule of the Go runtime inside each worker")
@@ -2368,4 +2416,279 @@ func c30RTPFamBase(f string) string {
 	}
 
 	return strings.Join(p, ":")
+}
+
+// ---------------------------------------------------------------------------------------------
+// part D: munged offers on REAL pairs (handleIncomingSSRC / handleUndeclaredSSRC re-parse the
+// applied remote description when a connected peer sends RTP)
+
+var c30PairFams = map[string]bool{"ssrc": true, "ssrc-group": true, "msid": true, "rid": true, "mid": true, "extmap": true}
+
+func c30PairAPINoExt(tb testing.TB) *API {
+	lf := logging.NewDefaultLoggerFactory()
+	lf.DefaultLogLevel = logging.LogLevelDisabled
+
+	return vNewAPI(tb, vAPIOpts{
+		setting: func(s *SettingEngine) {
+			s.LoggerFactory = lf
+			s.SetIncludeLoopbackCandidate(true)
+			s.SetInterfaceFilter(func(n string) bool { return n == "lo" })
+			s.SetNetworkTypes([]NetworkType{NetworkTypeUDP4})
+		},
+	})
+}
+
+// c30MakePairSeeds: the offers of real senders (gathered over loopback); only their line
+// structure is used, every case works on the fresh offer of its own sender.
+func c30MakePairSeeds(tb testing.TB, thorough bool) []c30Seed {
+	setups := []string{"audio", "video"}
+	if thorough {
+		setups = append(setups, "av")
+	}
+	var out []c30Seed
+	for _, su := range setups {
+		pc := vNewPC(tb, c30PairAPI(tb), nil)
+		c30Setup(tb, pc, su)
+		text, err := c30GatheredOffer(pc)
+		_ = pc.Close()
+		if err != nil {
+			vkit.Fatalf(tb, "pair seed %s: %v", su, err)
+		}
+		out = append(out, c30Seed{Name: "pair-" + su, Type: "offer", Local: su, SDP: text, D: true})
+	}
+
+	return out
+}
+
+func c30GatheredOffer(pc *PeerConnection) (string, error) {
+	off, err := pc.CreateOffer(nil)
+	if err != nil {
+		return "", err
+	}
+	g := GatheringCompletePromise(pc)
+	if err = pc.SetLocalDescription(off); err != nil {
+		return "", err
+	}
+	select {
+	case <-g:
+	case <-time.After(c30RTPGuard):
+		return "", fmt.Errorf("gathering did not complete within %v", c30RTPGuard) //nolint:err113
+	}
+
+	return pc.LocalDescription().SDP, nil
+}
+
+func c30Kinds(lines []string) []string {
+	out := make([]string, len(lines))
+	for i, l := range lines {
+		out[i] = c30LineKind(l)
+	}
+
+	return out
+}
+
+// c30PairCases: per part-D seed the deviations that touch the attribute families the RTP-time
+// re-parsing reads (delete / rename family; every line / value / token operator on msid, ssrc,
+// ssrc-group, rid, mid, extmap lines) and the pairs {delete all a=ssrc} x {operator on a=msid}.
+func c30PairCases(seeds []c30Seed, thorough bool) []c30Case {
+	var out []c30Case
+	sems := []int{0}
+	if thorough {
+		sems = []int{0, 2}
+	}
+	for si := range seeds {
+		s := &seeds[si]
+		if !s.D {
+			continue
+		}
+		lines := c30Lines(s.SDP)
+		kinds := c30Kinds(lines)
+		mode := "ext"
+		if s.Local == "av" {
+			mode = "noext" // two sections: the section is found by payload type when no mid extension is negotiated
+		}
+		var keep, msid []c30Dev
+		for _, d := range c30Devs(lines, thorough) {
+			switch d.Op {
+			case "fdel", "fren":
+				if c30PairFams[d.Fam] {
+					keep = append(keep, d)
+					if d.Fam == "msid" {
+						msid = append(msid, d)
+					}
+				}
+			case "val", "tok", "tdel", "tcut", "sep", "del", "dup":
+				if c30PairFams[kinds[d.I]] {
+					keep = append(keep, d)
+					if kinds[d.I] == "msid" {
+						msid = append(msid, d)
+					}
+				}
+			}
+		}
+		for _, sem := range sems {
+			for _, d := range keep {
+				op, kind := c30DevFamily(lines, d)
+				out = append(out, c30Case{Part: "pair", Seed: s.Name, Local: s.Local, Sem: sem, Mode: mode, Devs: []c30Dev{d},
+					Kinds: kinds, Op: op, Kind: kind})
+			}
+			noSSRC := c30Dev{Op: "fdel", I: -1, Fam: "ssrc"}
+			for _, d := range msid {
+				_, kind := c30DevFamily(lines, d)
+				out = append(out, c30Case{Part: "pair", Seed: s.Name, Local: s.Local, Sem: sem, Mode: mode, Devs: []c30Dev{d, noSSRC},
+					Kinds: kinds, Op: "pair", Kind: "fdel/ssrc+" + c30OpBase(d.Op) + "/" + kind})
+			}
+			out = append(out, c30Case{Part: "pair", Seed: s.Name, Local: s.Local, Sem: sem, Mode: mode, Devs: nil,
+				Kinds: kinds, Op: "none", Kind: "-"})
+		}
+	}
+
+	return out
+}
+
+// execPair: sender A (unmodified) and answerer B over loopback; A's offer is munged in transit.
+func (x *c30Exec) execPair(cs c30Case) (outcome string) { //nolint:cyclop
+	defer c30Recover(&outcome)
+	a := vNewPC(x.tb, c30PairAPI(x.tb), nil)
+	c30Setup(x.tb, a, cs.Local)
+	bAPI := c30PairAPI(x.tb)
+	if cs.Mode == "noext" {
+		bAPI = c30PairAPINoExt(x.tb)
+	}
+	b := vNewPC(x.tb, bAPI, &Configuration{SDPSemantics: c30Sems[cs.Sem]})
+	closeBoth := func() {
+		_ = a.Close()
+		_ = b.Close()
+		_ = a.GracefulClose()
+		_ = b.GracefulClose()
+		c30Quiesce()
+	}
+	var tmu sync.Mutex
+	seen := map[*TrackRemote]bool{}
+	announced := 0
+	b.OnTrack(func(tr *TrackRemote, _ *RTPReceiver) {
+		tmu.Lock()
+		dup := seen[tr]
+		seen[tr] = true
+		announced++
+		tmu.Unlock()
+		if dup {
+			return
+		}
+		go func() {
+			buf := make([]byte, 1500)
+			for {
+				if _, _, err := tr.Read(buf); err != nil {
+					return
+				}
+			}
+		}()
+	})
+	text, err := c30GatheredOffer(a)
+	if err != nil {
+		vkit.Fatalf(x.tb, "pair: sender offer: %v", err)
+	}
+	lines := c30Lines(text)
+	if len(cs.Kinds) > 0 {
+		got := c30Kinds(lines)
+		if strings.Join(got, ",") != strings.Join(cs.Kinds, ",") {
+			vkit.Fatalf(x.tb, "pair: the sender's offer does not have the structure of seed %s", cs.Seed)
+		}
+	}
+	munged := c30ApplyAll(lines, cs.Devs)
+	if err = b.SetRemoteDescription(SessionDescription{Type: SDPTypeOffer, SDP: munged}); err != nil {
+		closeBoth()
+
+		return "rejected"
+	}
+	ans, err := b.CreateAnswer(nil)
+	if err != nil {
+		closeBoth()
+
+		return "accepted+answer-failed"
+	}
+	g := GatheringCompletePromise(b)
+	if err = b.SetLocalDescription(ans); err != nil {
+		closeBoth()
+
+		return "accepted+answer+sld-failed"
+	}
+	select {
+	case <-g:
+	case <-time.After(c30RTPGuard):
+		vkit.Fatalf(x.tb, "pair: gathering (answerer) did not complete within %v", c30RTPGuard)
+	}
+	if err = a.SetRemoteDescription(*b.LocalDescription()); err != nil {
+		closeBoth()
+
+		return "accepted+sender-rejected-the-answer"
+	}
+	// transports: an event wait; a munged description may legitimately keep them from coming up,
+	// which is an outcome class (bounded wait), never a verdict
+	up := time.After(15 * time.Second)
+	for _, ch := range []<-chan struct{}{a.dtlsTransport.srtpReady, b.dtlsTransport.srtpReady} {
+		select {
+		case <-ch:
+		case <-up:
+			closeBoth()
+
+			return "accepted+no-connection"
+		}
+	}
+	// is the SSRC the sender uses declared by what the answerer applied?
+	declared := map[SSRC]bool{}
+	if rd := b.RemoteDescription(); rd != nil && rd.parsed != nil {
+		for _, td := range trackDetailsFromSDP(b.log, rd.parsed) {
+			for _, v := range td.ssrcs {
+				declared[v] = true
+			}
+		}
+	}
+	undeclared := false
+	r0 := b.iceTransport.Stats().BytesReceived
+	s0 := a.iceTransport.Stats().BytesSent
+	for _, snd := range a.GetSenders() {
+		tl, ok := snd.Track().(*TrackLocalStaticRTP)
+		if !ok {
+			continue
+		}
+		for _, enc := range snd.GetParameters().Encodings {
+			if !declared[enc.SSRC] {
+				undeclared = true
+			}
+		}
+		for q := 0; q < 20; q++ {
+			_ = tl.WriteRTP(&rtp.Packet{
+				Header:  rtp.Header{Version: 2, SequenceNumber: uint16(1000 + q), Timestamp: uint32(3000 * q)}, //nolint:gosec
+				Payload: []byte{0x90, 0x90, 0x90, 1, 2, 3, 4, 5, 6, byte(q)},
+			})
+		}
+	}
+	// wait (bounded, no verdict) until the answerer's transport has taken in what the sender put
+	// on the wire, then let every goroutine that woke up run to its blocking point
+	want := a.iceTransport.Stats().BytesSent - s0
+	for k := 0; k < 10000 && b.iceTransport.Stats().BytesReceived-r0 < want; k++ {
+		time.Sleep(200 * time.Microsecond)
+	}
+	c30Quiesce()
+	time.Sleep(2 * time.Millisecond)
+	c30Quiesce()
+	tmu.Lock()
+	n := announced
+	tmu.Unlock()
+	out := "connected+rtp"
+	if undeclared {
+		out += "+undeclared-ssrc"
+	}
+	if n > 0 {
+		out += "+track-announced"
+	} else {
+		out += "+no-track"
+	}
+	if b.ConnectionState() != PeerConnectionStateConnected && b.ConnectionState() != PeerConnectionStateConnecting {
+		out += "+answerer-" + b.ConnectionState().String()
+	}
+	closeBoth()
+
+	return out
 }
